@@ -67,6 +67,9 @@ def collect_names(prog, db):
                     expr(e)
             if k == "filter":
                 expr(t["cond"])
+            if k == "exclude":
+                for e in t["cols"]:
+                    expr(e)
             if k == "sort":
                 for d, e in t["keys"]:
                     expr(e)
@@ -134,6 +137,8 @@ def rename(prog, db, m):
                 t["items"] = [[m.get(("col", n), n) if n else n, expr(e)] for n, e in t["items"]]
             if k == "filter":
                 t["cond"] = expr(t["cond"])
+            if k == "exclude":
+                t["cols"] = [expr(e) for e in t["cols"]]
             if k == "sort":
                 t["keys"] = [[d, expr(e)] for d, e in t["keys"]]
             if k == "join":
@@ -256,7 +261,44 @@ def collision_matrix():
                                   "alias": "jp", "side": "inner", "cond": ["bin", "==", col("t1", "id"), col("jp", "id")]}, sel],
     }
     gens = [None, "table_0", "table_1", "table_2"]
+    # programs whose LETS hold the relations the compiler has to name (an anonymous sub-pipeline, a split), read by a
+    # main pipeline that starts from / joins the user's table: the order in which declarations reach the naming pass
+    # differs from the order of the plain templates above
+    anon = {"k": "pipe", "pipe": [frm("t1"), {"t": "select", "items": [[None, col("t1", "id")], [None, col("t1", "a")]]},
+                                  {"t": "sort", "keys": [[False, col("t1", "id")]]}, {"t": "take", "lo": None, "hi": 3}]}
+    let_anon = [frm("t1"), {"t": "join", "src": anon, "alias": "jp", "side": "inner", "cond": ["bin", "==", col("t1", "id"), col("jp", "id")]},
+                {"t": "select", "items": [[None, col("t1", "id")], [None, col("t1", "k")], [None, col("jp", "a")]]}]
+    let_split = [frm("t1"), {"t": "select", "items": [[None, col("t1", "id")], [None, col("t1", "k")], [None, col("t1", "a")]]},
+                 {"t": "sort", "keys": [[False, col(None, "id")]]}, {"t": "take", "lo": None, "hi": 4},
+                 {"t": "filter", "cond": ["bin", ">", col(None, "id"), ["lit", 0]]}, {"t": "sort", "keys": [[True, col(None, "k")], [False, col(None, "id")]]}, {"t": "take", "lo": None, "hi": 3}]
+
+    def join_let(name, lq, lcol, rcol, side="inner"):
+        return {"t": "join", "src": {"k": "let", "name": name}, "alias": None, "side": side, "cond": ["bin", "==", col(lq, lcol), col(name, rcol)]}
+    sel_l = {"t": "select", "items": [[None, col("t2", "id")], [None, col("t2", "c")], [None, col("lr", "a")]]}
+    let_templates = {
+        "let_anon_joined": {"lets": [["lr", let_anon]], "main": [frm("t2"), join_let("lr", "t2", "id", "id"), sel_l]},
+        "let_anon_joined_left": {"lets": [["lr", let_anon]], "main": [frm("t2"), join_let("lr", "t2", "id", "id", "left"), sel_l]},
+        "let_anon_from": {"lets": [["lr", let_anon]], "main": [{"t": "from", "src": {"k": "let", "name": "lr"}, "alias": None},
+                                                               {"t": "join", "src": {"k": "table", "name": "t2"}, "alias": None, "side": "inner", "cond": ["bin", "==", col("lr", "id"), col("t2", "id")]}, sel_l]},
+        "let_split_joined": {"lets": [["lr", let_split]], "main": [frm("t2"), join_let("lr", "t2", "id", "id"), sel_l]},
+        "let_split_from": {"lets": [["lr", let_split]], "main": [{"t": "from", "src": {"k": "let", "name": "lr"}, "alias": None},
+                                                                 {"t": "join", "src": {"k": "table", "name": "t2"}, "alias": None, "side": "inner", "cond": ["bin", "==", col("lr", "id"), col("t2", "id")]}, sel_l]},
+        "let_anon_twice": {"lets": [["lr", let_anon], ["lq", [{"t": "from", "src": {"k": "let", "name": "lr"}, "alias": None}, {"t": "filter", "cond": ["bin", ">", col("lr", "id"), ["lit", 1]]}]]],
+                           "main": [frm("t2"), join_let("lr", "t2", "id", "id"), sel_l, {"t": "join", "src": {"k": "let", "name": "lq"}, "alias": None, "side": "left", "cond": ["bin", "==", col(None, "id"), col("lq", "id")]},
+                                    {"t": "select", "items": [[None, col(None, "c")], [None, col("lq", "a")]]}]},
+    }
     out = []
+    for label, prog in sorted(let_templates.items()):
+        for g1 in gens:
+            for g2 in gens:
+                if g1 is None and g2 is None or (g1 is not None and g1 == g2):
+                    continue
+                m = {}
+                if g1:
+                    m[("table", "t1")] = g1
+                if g2:
+                    m[("table", "t2")] = g2
+                out.append(("%s/%s,%s" % (label, g1 or "-", g2 or "-"), dict(copy.deepcopy(prog), cuts=[]), m))
     for label, main in sorted(templates.items()):
         for g1 in gens:
             for g2 in gens:
@@ -413,7 +455,7 @@ def _shard(seed, shard, n_cases):
     while obs["cases"] < n_cases:
         db = grel.gen_db(rng, relcheck.DB_KINDS[ci % 5])
         try:
-            prog = grel.random_program(rng, rng.choice(["core", "project", "sort", "core"]))
+            prog = grel.random_program(rng, rng.choice(["core", "project", "sort", "core", "shared"]))
             grel.pp_program(prog)
         except (ValueError, IndexError):
             continue
